@@ -82,7 +82,7 @@ class Outcome:
 
 
 class Frame:
-    __slots__ = ('fn', 'env', 'facts', 'module', 'cls', 'depth', 'yields', 'effects')
+    __slots__ = ('fn', 'env', 'facts', 'module', 'cls', 'depth', 'yields', 'effects', 'ret_facts')
 
     def __init__(self, fn, env, facts, module, cls, depth):
         self.fn = fn
@@ -93,6 +93,7 @@ class Frame:
         self.depth = depth
         self.yields = []
         self.effects = []
+        self.ret_facts = []
 
 
 FALL = ('fall',)     # block completed normally
@@ -181,11 +182,19 @@ class Evaluator:
             res = self.block(fi.node.body, fr)
         finally:
             self._stack.pop()
+        exits = list(fr.ret_facts)
+        if res is FALL or _has_fall(res):
+            exits.append(fr.facts)
+        out_facts = fr.facts
+        if exits:
+            out_facts = exits[0]
+            for x in exits[1:]:
+                out_facts = out_facts.meet(x)
         if res is FALL:
             res = T.NONE
         else:
             res = _strip_fall(res, T.NONE)
-        return res, fr.facts
+        return res, out_facts
 
     def _construct(self, ci, args, kwargs, facts, depth):
         if ci.is_enum:
@@ -297,6 +306,7 @@ class Evaluator:
 
     def st_Return(self, st, fr):
         v = self.expr(st.value, fr) if st.value is not None else T.NONE
+        fr.ret_facts.append(fr.facts)
         return v
 
     def st_Raise(self, st, fr):
@@ -428,30 +438,55 @@ class Evaluator:
                 return self.block(handlers[0].body, fr)
             # the body completed without touching a secp name: else-arm runs
             return self.block(st.orelse, fr)
-        # generic try: the repo has `except IndexError: return None` in list_get
-        if len(handlers) == 1 and isinstance(handlers[0].type, ast.Name) and not st.finalbody:
-            exc = handlers[0].type.id
-            env0, facts0 = dict(fr.env), fr.facts
-            r = self.block(st.body, fr)
-            if r is FALL:
-                return self.block(st.orelse, fr)
-            if not _has_specific_raise(r, exc):
-                if _has_fall(r):
-                    return _replace_fall(r, self.block(st.orelse, fr))
-                return r
-            # paths raising `exc` continue in the handler (evaluated in the pre-try environment;
-            # sound here because such bodies are single statements)
-            if len(st.body) != 1:
-                self._havoc_targets(st, fr, 'multi-statement try body with caught exception')
-                return T.opaque('try/except %s over several statements' % exc)
-            env1, facts1 = fr.env, fr.facts
+        # generic try (the repo has `except IndexError: return None` in list_get).  Conservative:
+        # facts gained inside the body do not survive a handler that can fall through or return,
+        # explicit raise leaves of a caught type continue in the handler, and a broad handler may also
+        # be entered by an exception raised inside a callee we only summarise.
+        if st.finalbody:
+            self._havoc_targets(st, fr, 'try/finally')
+            return T.opaque('try/finally at line %d' % st.lineno)
+        env0, facts0 = dict(fr.env), fr.facts
+        r = self.block(st.body, fr)
+        env1, facts1 = fr.env, fr.facts
+        out = r
+        any_handler_continues = False
+        for h in handlers:
+            names = _handler_names(h)
+            broad = names is None or bool(names & {'Exception', 'BaseException'})
             fr.env, fr.facts = dict(env0), facts0
-            h = self.block(handlers[0].body, fr)
-            res = _map_leaves(r, lambda x: h if x == T.raise_(exc) else x)
-            fr.env, fr.facts = env1, facts1.meet(fr.facts)
-            return res
-        self._havoc_targets(st, fr, 'unsupported try shape')
-        return T.opaque('unsupported try shape at line %d' % st.lineno)
+            if len(st.body) != 1:
+                for s_ in st.body:
+                    self._havoc_targets(s_, fr, 'assigned in try body before exception')
+            if h.name:
+                fr.env[h.name] = T.opaque('exception object')
+            hres = self.block(h.body, fr)
+            hcont = hres is FALL or _has_fall(hres) or not _all_raise(hres)
+            any_handler_continues = any_handler_continues or hcont
+
+            def repl(x, hres=hres, names=names, broad=broad):
+                if T.tag(x) == 'raise' and (broad or x[1] in names):
+                    return hres
+                return x
+            out = _map_leaves(out, repl) if out is not FALL else out
+            changed = [v for k_, v in env1.items() if env0.get(k_) is not v]
+            if broad:
+                implicit = _may_raise_implicitly(st.body)
+            else:
+                implicit = any(_term_may_raise(x, names) for x in ([r] if r is not FALL else []) + changed)
+            if implicit:
+                out = T.phi(T.raw_op('BOOL', T.opaque('exception %s inside try body at line %d'
+                                                      % ('|'.join(sorted(names or ['any'])), st.lineno))),
+                            hres, out)
+        fr.env = env1
+        fr.facts = facts0 if any_handler_continues else facts1
+        if any_handler_continues and len(st.body) != 1:
+            for s_ in st.body:
+                self._havoc_targets(s_, fr, 'assigned in try body with continuing handler')
+        if out is FALL:
+            return self.block(st.orelse, fr) if st.orelse else FALL
+        if _has_fall(out) and st.orelse:
+            return _replace_fall(out, self.block(st.orelse, fr))
+        return out
 
     def st_With(self, st, fr):
         for item in st.items:
@@ -464,6 +499,7 @@ class Evaluator:
         it = self.expr(st.iter, fr)
         seq = _fixed_items(it)
         if seq is not None and len(seq) <= UNROLL_BOUND and not st.orelse:
+            acc = FALL
             for item in seq:
                 self.assign(st.target, item, fr)
                 r = self._loop_body(st.body, fr)
@@ -473,13 +509,11 @@ class Evaluator:
                     continue
                 if r == 'opaque':
                     self._havoc_targets(st, fr, 'data-dependent break/continue in unrolled loop')
-                    return FALL
+                    return acc
+                acc = r if acc is FALL else _replace_fall(acc, r)
                 if not _has_fall(r):
-                    return r
-                # conditional exit inside unrolled loop: continue under fall-through
-                self._havoc_targets(st, fr, 'conditional exit inside unrolled loop')
-                return T.phi(T.raw_op('BOOL', T.opaque('loop exit')), r, FALL)
-            return FALL
+                    break
+            return acc
         # loop over a symbolic iterable: everything assigned inside is unknown afterwards
         self._havoc_targets(st, fr, 'loop over symbolic iterable at line %d' % st.lineno)
         self._scan_loop_effects(st, fr)
@@ -1146,6 +1180,49 @@ def _has_specific_raise(t, exc):
         return True
     if T.tag(t) == 'phi':
         return _has_specific_raise(t[2], exc) or _has_specific_raise(t[3], exc)
+    return False
+
+
+_IMPLICIT_EXC = {'ValueError', 'TypeError', 'KeyError', 'IndexError', 'AssertionError', 'OverflowError',
+                 'RuntimeError', 'ArithmeticError', 'LookupError', 'AttributeError', 'InvalidKeyError',
+                 'MalformedPointError', 'Error'}
+
+
+def _handler_names(h):
+    if h.type is None:
+        return None
+    if isinstance(h.type, ast.Tuple):
+        return {ast.unparse(x).split('.')[-1] for x in h.type.elts}
+    return {ast.unparse(h.type).split('.')[-1]}
+
+
+_RAISING_OPS = {
+    'IndexError': {'GETITEM'}, 'KeyError': {'GETITEM', 'DICTGET'}, 'LookupError': {'GETITEM'},
+    'ValueError': {'INTCAST', 'FROMHEX', 'INDEX', 'B58DEC', 'EXTCALL', 'METHOD'},
+    'TypeError': {'EXTCALL', 'METHOD'}, 'OverflowError': {'SER'},
+}
+
+
+def _term_may_raise(t, names):
+    ops = set()
+    for n in names:
+        ops |= _RAISING_OPS.get(n, {'EXTCALL', 'METHOD'})
+    return T.contains(t, lambda x: T.tag(x) == 'opaque' or (T.is_op(x) and x[1] in ops))
+
+
+def _all_raise(t):
+    if t is FALL:
+        return False
+    if T.tag(t) == 'phi':
+        return _all_raise(t[2]) and _all_raise(t[3])
+    return T.tag(t) == 'raise'
+
+
+def _may_raise_implicitly(body):
+    for s in body:
+        for n in ast.walk(s):
+            if isinstance(n, (ast.Call, ast.Subscript, ast.BinOp, ast.Attribute)):
+                return True
     return False
 
 
